@@ -114,7 +114,7 @@ def gen_netlist(rnd, big=False):
             cands = [('i', k) for k in range(n_in)] + [('n', a, b) for a, b, eq in outs_of if not eq]
             if allow_later and rnd.random() < 0.5:
                 # register feedback: from this node itself or a later one (decided now, nodes exist later)
-                tgt = rnd.randrange(j, n_nodes)
+                tgt = j if (rnd.random() < 0.12 or j == n_nodes - 1) else rnd.randrange(j + 1, n_nodes)
                 return ['fb', tgt]
             recent = [('n', a, b) for a, b, eq in outs_of[-2:] if not eq]
             if recent and rnd.random() < chainy:
